@@ -184,80 +184,41 @@ RayCasting<Scalar, DIM>::cast(const PointType & originPoint, const PointType & e
   return cast(endPoint);
 }
 
-// TODO(Jean) factoriser en utilisant const expr if
 //-----------------------------------------------------------------------------
-template<>
-void RayCasting<float, 2>::next(CellIndexes & cellIndexes)
+template<typename Scalar, size_t DIM>
+void RayCasting<Scalar, DIM>::next(CellIndexes & cellIndexes)
 {
-  // find minimum rayTMax_
-  // increment current position
-  if (rayTMax_[0] < rayTMax_[1]) {
-    cellIndexes[0] += rayStep_[0];
-    rayTMax_[0] += rayTDelta_[0];
-  } else {
-    cellIndexes[1] += rayStep_[1];
-    rayTMax_[1] += rayTDelta_[1];
-  }
-}
+  // The number of cells of a ray is derived from the cell indexes of its two points, so the
+  // traversal must make exactly |end index - origin index| steps along each axis. Because of
+  // rounding, the crossing parameters may disagree with the indexes when a point lies on (or
+  // within a few ulps of) a cell border; following them alone, the ray would make one step too
+  // many along an axis and one too few along another: it would stop short of the end cell or
+  // run past it, possibly out of the grid. Therefore only the axes which have not reached the
+  // end index yet are candidates; among them, advance along the one with the smallest
+  // crossing parameter (the last one in case of tie).
+  int axis = -1;
+  for (int i = 0; i < static_cast<int>(DIM); ++i) {
+    const bool endIndexNotReached =
+      (rayStep_[i] > 0 && cellIndexes[i] < rayEndIndexes_[i]) ||
+      (rayStep_[i] < 0 && cellIndexes[i] > rayEndIndexes_[i]);
 
-template<>
-void RayCasting<double, 2>::next(CellIndexes & cellIndexes)
-{
-  // find minimum rayTMax_
-  // increment current position
-  if (rayTMax_[0] < rayTMax_[1]) {
-    cellIndexes[0] += rayStep_[0];
-    rayTMax_[0] += rayTDelta_[0];
-  } else {
-    cellIndexes[1] += rayStep_[1];
-    rayTMax_[1] += rayTDelta_[1];
+    if (endIndexNotReached && (axis < 0 || rayTMax_[i] <= rayTMax_[axis])) {
+      axis = i;
+    }
   }
-}
 
-template<>
-void RayCasting<float, 3>::next(CellIndexes & cellIndexes)
-{
-  // find minimum tMax:
-  if (rayTMax_[0] < rayTMax_[1]) {
-    if (rayTMax_[0] < rayTMax_[2]) {
-      cellIndexes[0] += rayStep_[0];
-      rayTMax_[0] += rayTDelta_[0];
-    } else {
-      cellIndexes[2] += rayStep_[2];
-      rayTMax_[2] += rayTDelta_[2];
-    }
-  } else {
-    if (rayTMax_[1] < rayTMax_[2]) {
-      cellIndexes[1] += rayStep_[1];
-      rayTMax_[1] += rayTDelta_[1];
-    } else {
-      cellIndexes[2] += rayStep_[2];
-      rayTMax_[2] += rayTDelta_[2];
+  if (axis < 0) {
+    // end cell reached or passed: the ray is simply continued
+    axis = 0;
+    for (int i = 1; i < static_cast<int>(DIM); ++i) {
+      if (rayTMax_[i] <= rayTMax_[axis]) {
+        axis = i;
+      }
     }
   }
-}
 
-template<>
-void RayCasting<double, 3>::next(CellIndexes & cellIndexes)
-{
-  // find minimum tMax:
-  if (rayTMax_[0] < rayTMax_[1]) {
-    if (rayTMax_[0] < rayTMax_[2]) {
-      cellIndexes[0] += rayStep_[0];
-      rayTMax_[0] += rayTDelta_[0];
-    } else {
-      cellIndexes[2] += rayStep_[2];
-      rayTMax_[2] += rayTDelta_[2];
-    }
-  } else {
-    if (rayTMax_[1] < rayTMax_[2]) {
-      cellIndexes[1] += rayStep_[1];
-      rayTMax_[1] += rayTDelta_[1];
-    } else {
-      cellIndexes[2] += rayStep_[2];
-      rayTMax_[2] += rayTDelta_[2];
-    }
-  }
+  cellIndexes[axis] += rayStep_[axis];
+  rayTMax_[axis] += rayTDelta_[axis];
 }
 
 template class RayCasting<float, 2>;
